@@ -6,6 +6,10 @@ LIB = ["src/lib/ares_library_init.c", "src/lib/dsa/ares_llist.c", "src/lib/dsa/a
        "src/lib/str/ares_str.c", "src/lib/util/ares_math.c", "src/lib/ares_socket.c"]
 SUP = ["vp_rt.c", "valloc.c", "memloops.c", "slist_ref.c", "szvp_ref.c", "asvp_ref.c", "lock_ghost.c", "vsock.c", "world.c"]
 
+import os, sys
+sys.path.insert(0, os.path.join(os.path.dirname(os.path.abspath(__file__)), "..", "machine"))
+import mjobs
+
 def jobs(tier, seed):
     J = []
     for tcp in (0, 1):
@@ -26,4 +30,6 @@ def jobs(tier, seed):
                   support=SUP, unwind=18, witnesses=["end"],
                   bound="connection set: server0=[%s] server1=[%s] (u=UDP t=TCP), write interest per connection symbolic, "
                         "0/1 active query, numsocks 0..5" % (s0, s1 if s1 is not None else "-")))
+    J += mjobs.cleanup_jobs(tier)
+    J += [j for j in mjobs.sendquery_jobs(tier) if "srv1" in j["name"]]
     return J
